@@ -96,6 +96,9 @@ func checkC09(c *Ctx) {
 	c.borrow("C13", func() { checkC13(c) }, func(o *coreObl) (string, bool) { return "R09.2", o.Rule == "R13.1" })
 	// R09.5: label invalidation remembers processed keys by the key itself (a digest would let a colliding key's entry survive)
 	c.borrowKinds("C15", func() { c.c15Protocol() }, "R09.5", "InvalidationIndex.invalidateByLabels", []string{"R15.3"}, "dedup-key")
+	// … and a key is associated with the labels it was given, only those: every label's list gets string(key) appended to that
+	// label's own list (lists of different labels sharing storage would hand one label's key to another label's invalidation)
+	c.borrowKinds("C15", func() { c.c15Labelling() }, "R09.5", "InvalidationIndex.AddLabels:own-list", []string{"R15.6"}, "label-not-recorded", "labels-filed-under-other-name")
 	// R09.4: the per-key build locks of the Failover frontends are keyed by the full key, not by a hash of it
 	for _, sib := range siblings {
 		fo := c.failover(sib)
@@ -277,6 +280,11 @@ func (c *Ctx) c09Retention() {
 			for _, g := range goEvents(p) {
 				for _, sp := range g.Sub {
 					check(sp.Events, true)
+					// a copy (append(nil, key...), string(key), key[i]) taken inside the goroutine reads the caller's buffer when the
+					// caller may already own it again: the copy must be taken before the go statement
+					if ev, v := readsInGo(sp.Events, key); ev != nil {
+						report("read-in-goroutine", ev, "a spawned goroutine reads the bytes of the caller's key slice ("+v.String()+") after the call may have returned; the private copy has to be taken before the go statement", p)
+					}
 				}
 			}
 			for _, rv := range p.Ret {
@@ -290,6 +298,63 @@ func (c *Ctx) c09Retention() {
 			r.OK("R09.1", name, fmt.Sprintf("%d paths, %d potential sinks", len(paths), nSites))
 		}
 	}
+}
+
+// readsInGo finds a value built inside a spawned function directly from the bytes of the caller's slice.
+func readsInGo(evs []*pw.Event, key *pw.Val) (*pw.Event, *pw.Val) {
+	seen := map[*pw.Val]bool{}
+	var hit *pw.Val
+	var rec func(x *pw.Val, d int)
+	rec = func(x *pw.Val, d int) {
+		if x == nil || hit != nil || seen[x] || d > 12 {
+			return
+		}
+		seen[x] = true
+		if x.InGo {
+			switch x.Kind {
+			case pw.KAppend:
+				for _, e := range x.Elems {
+					if aliases(e, key) {
+						hit = x
+						return
+					}
+				}
+				if aliases(x.Src, key) {
+					hit = x
+					return
+				}
+			case pw.KConv, pw.KIndex, pw.KLen:
+				if aliases(x.Src, key) && x.Kind != pw.KLen {
+					hit = x
+					return
+				}
+			}
+		}
+		rec(x.Src, d+1)
+		for _, e := range x.Elems {
+			rec(e, d+1)
+		}
+		for _, f := range x.Fields {
+			rec(f, d+1)
+		}
+	}
+	for _, ev := range evs {
+		for _, a := range ev.Args {
+			rec(a, 0)
+		}
+		rec(ev.Key, 0)
+		rec(ev.Value, 0)
+		rec(ev.Recv, 0)
+		if hit != nil {
+			return ev, hit
+		}
+		for _, sub := range ev.Sub {
+			if e2, v := readsInGo(sub.Events, key); e2 != nil {
+				return e2, v
+			}
+		}
+	}
+	return nil, nil
 }
 
 // c09Confirm: R09.3 on Read and Delete of a sharded backend.
